@@ -109,7 +109,11 @@ pub fn cmd_sat(a: &Args) {
     let hfile = a.get("hists", "");
     if !hfile.is_empty() {
         let txt = std::fs::read_to_string(&hfile).unwrap();
-        for l in txt.lines().filter(|l| !l.trim().is_empty()) {
+        let stride = a.num("stride", 1);
+        for (hi, l) in txt.lines().filter(|l| !l.trim().is_empty()).enumerate() {
+            if hi % stride != 0 {
+                continue;
+            }
             let v: Value = serde_json::from_str(l).unwrap();
             let mut ops: Vec<SOp> = vec![];
             let asets = assumption_sets(3);
